@@ -36,14 +36,16 @@ def smooth_axis_monotone(data, window=15, max_iter=1000):
     smooth_axis
     """
     smooth = smooth_axis(data, window=window)
-    gradient = np.gradient(smooth)
+    # differences of neighboring points (a central-differences gradient
+    # cannot see a zigzag)
+    gradient = np.diff(smooth)
 
     for _ in range(max_iter):
-        if np.abs(np.sum(gradient)) == np.sum(np.abs(gradient)):
+        if np.all(gradient >= 0) or np.all(gradient <= 0):
             break
         window = window * 2 + 1
         smooth = smooth_axis(data, window=window)
-        gradient = np.gradient(smooth)
+        gradient = np.diff(smooth)
         warnings.warn("Automatically doubled smoothing `window` size to "
                       + "{}. You might consider using a ".format(window)
                       + "larger value by default.",
